@@ -448,6 +448,7 @@ func (x *Exec) registerHarnessIntrinsics() {
 		r("sEq", func(p *Path, fn *ssa.Function, a []Value) (Value, *Panic) { return p.C.Eq(T(a[0]), T(a[1])), nil })
 		r("sLt", func(p *Path, fn *ssa.Function, a []Value) (Value, *Panic) { return p.C.Lt(T(a[0]), T(a[1])), nil })
 		r("sLe", func(p *Path, fn *ssa.Function, a []Value) (Value, *Panic) { return p.C.Le(T(a[0]), T(a[1])), nil })
+		r("specByte", func(p *Path, fn *ssa.Function, a []Value) (Value, *Panic) { return a[0], nil })
 		r("sOdd", func(p *Path, fn *ssa.Function, a []Value) (Value, *Panic) {
 			return p.C.Eq(p.C.ModC(T(a[0]), big.NewInt(2)), p.C.Int(1)), nil
 		})
